@@ -106,6 +106,7 @@ thread_local! {
     static LOG: RefCell<Vec<Acquisition>> = RefCell::new(Vec::new());
     static LOG_ON: Cell<bool> = Cell::new(false);
     static TOKEN: Cell<u64> = Cell::new(0);
+    static WAITING: RefCell<Vec<(u64, Held)>> = RefCell::new(Vec::new());
 }
 
 /// the harness tells which logical task (processor of a node) is being polled
@@ -115,6 +116,7 @@ pub fn set_current_task(task: u64) {
 pub fn lock_log_start() {
     LOG.with(|l| l.borrow_mut().clear());
     HELD.with(|h| h.borrow_mut().clear());
+    WAITING.with(|h| h.borrow_mut().clear());
     LOG_ON.with(|o| o.set(true));
 }
 pub fn lock_log_take() -> Vec<Acquisition> {
@@ -149,14 +151,34 @@ fn rank_of<T: ?Sized>() -> u8 {
     }
 }
 
-fn on_acquired(rank: u8, write: bool, loc: &'static Location<'static>) -> u64 {
+/// the lock `task` asked for and has not been granted yet (for deadlock reports)
+pub fn waiting_of(task: u64) -> Option<Held> {
+    WAITING.with(|w| {
+        w.borrow()
+            .iter()
+            .find(|(t, _)| *t == task)
+            .map(|(_, x)| x.clone())
+    })
+}
+
+/// logged when the lock is asked for, so that an acquisition that never completes is still seen
+fn on_requested(rank: u8, write: bool, loc: &'static Location<'static>) {
     let task = CURRENT_TASK.with(|c| c.get());
-    let token = TOKEN.with(|t| {
-        let v = t.get() + 1;
-        t.set(v);
-        v
-    });
     let held_now: Vec<Held> = held_by(task);
+    WAITING.with(|w| {
+        let mut w = w.borrow_mut();
+        w.retain(|(t, _)| *t != task);
+        w.push((
+            task,
+            Held {
+                rank,
+                write,
+                file: loc.file(),
+                line: loc.line(),
+                token: 0,
+            },
+        ));
+    });
     if LOG_ON.with(|o| o.get()) {
         LOG.with(|l| {
             l.borrow_mut().push(Acquisition {
@@ -169,6 +191,16 @@ fn on_acquired(rank: u8, write: bool, loc: &'static Location<'static>) -> u64 {
             })
         });
     }
+}
+
+fn on_acquired(rank: u8, write: bool, loc: &'static Location<'static>) -> u64 {
+    let task = CURRENT_TASK.with(|c| c.get());
+    let token = TOKEN.with(|t| {
+        let v = t.get() + 1;
+        t.set(v);
+        v
+    });
+    WAITING.with(|w| w.borrow_mut().retain(|(t, _)| *t != task));
     HELD.with(|h| {
         h.borrow_mut().push((
             task,
@@ -220,6 +252,7 @@ impl<T: ?Sized> RwLock<T> {
     pub fn read(&self) -> impl std::future::Future<Output = ReadGuard<'_, T>> {
         let loc = Location::caller();
         async move {
+            on_requested(rank_of::<T>(), false, loc);
             let guard = self.inner.read().await;
             let token = on_acquired(rank_of::<T>(), false, loc);
             ReadGuard { guard, token }
@@ -229,6 +262,7 @@ impl<T: ?Sized> RwLock<T> {
     pub fn write(&self) -> impl std::future::Future<Output = WriteGuard<'_, T>> {
         let loc = Location::caller();
         async move {
+            on_requested(rank_of::<T>(), true, loc);
             let guard = self.inner.write().await;
             let token = on_acquired(rank_of::<T>(), true, loc);
             WriteGuard { guard, token }
